@@ -648,3 +648,256 @@ Proof.
     + now apply (covers2_sound _ d (e_two_d e)).
 Qed.
 
+(* ---------------------------------------------------------------- validator characterisations (every value) *)
+Definition scalar_like (v : value) (s : sc) : Prop := v = Sc s \/ v = Arr [s] \/ v = Lst [s].
+
+Theorem range01_iff (ls hs : bool) (v : value) :
+  run_guard (GRange01 ls hs) v = None <->
+  exists s, (v = Sc s \/ v = Arr [s]) /\
+            (if ls then lt_sc (zc 0) s else le_sc (zc 0) s) = true /\
+            (if hs then lt_sc s (zc 1) else le_sc s (zc 1)) = true.
+Proof.
+  cbn [run_guard]. unfold range01. split.
+  - destruct v as [s|[|a [|b t]]|l| |]; cbn [cmpv]; try discriminate.
+    + intros H. exists s. split; [now left|].
+      destruct (if ls then _ else _); [|discriminate]. destruct (if hs then _ else _); [|discriminate]. now split.
+    + intros H. exists a. split; [now right|].
+      destruct (if ls then _ else _); [|discriminate]. destruct (if hs then _ else _); [|discriminate]. now split.
+  - intros [s [[->| ->] [H1 H2]]]; cbn [cmpv]; rewrite H1, H2; reflexivity.
+Qed.
+
+Theorem range01_rejects_nan (ls hs : bool) : run_guard (GRange01 ls hs) (Sc NaN) = Some VErr.
+Proof. destruct ls, hs; reflexivity. Qed.
+
+(* the contrast: a guard written `if p < 0 or p > 1: raise` lets NaN through *)
+Definition or_style_guard (v : value) : option exc :=
+  match cmpv (fun s => lt_sc s (zc 0)) v with
+  | Ok true => Some VErr
+  | Ok false => raise_if (cmpv (fun s => lt_sc (zc 1) s) v)
+  | Raise e => Some e
+  end.
+Theorem or_style_accepts_nan : or_style_guard (Sc NaN) = None.
+Proof. reflexivity. Qed.
+
+Theorem glt_iff (c : Z) (v : value) :
+  run_guard (GLt c) v = None <->
+  v = Arr [] \/ exists s, (v = Sc s \/ v = Arr [s]) /\ lt_sc s (zc c) = false.
+Proof.
+  cbn [run_guard]. split.
+  - destruct v as [s|[|a [|b t]]|l| |]; cbn [cmpv raise_if]; try discriminate.
+    + intros H. right. exists s. split; [now left|]. now destruct (lt_sc s (zc c)).
+    + now left.
+    + intros H. right. exists a. split; [now right|]. now destruct (lt_sc a (zc c)).
+  - intros [->|[s [[->| ->] H]]]; cbn [cmpv raise_if]; try rewrite H; reflexivity.
+Qed.
+
+(* the cast + sign test accepts only None (float dtype) or scalar-like values in 1-D *)
+Lemma core_accepts_scalar_like (az : bool) (d : dt) (v : value) :
+  of_res (csv_core az false d v) = None -> v = NoneV \/ exists s, scalar_like v s.
+Proof.
+  unfold csv_core, check_scalar, asarray.
+  destruct v as [s|l|l| |]; try (intros; right; exists s; now left); try (now left); try discriminate.
+  - destruct (cast_list d l) as [l'|] eqn:F; [|discriminate].
+    pose proof (cast_list_length _ _ _ F) as Hl.
+    destruct l as [|a [|b t]]; destruct l' as [|x [|y w]]; cbn in Hl; try lia; try discriminate.
+    intros _. right. exists a. right; now left.
+  - destruct (cast_list d l) as [l'|] eqn:F; [|discriminate].
+    pose proof (cast_list_length _ _ _ F) as Hl.
+    destruct l as [|a [|b t]]; destruct l' as [|x [|y w]]; cbn in Hl; try lia; try discriminate.
+    intros _. right. exists a. right; now right.
+Qed.
+
+Theorem csv_accepts_scalar_like (az : bool) (d : dt) (v : value) :
+  of_res (check_scalar_variable az false d v) = None -> v = NoneV \/ exists s, scalar_like v s.
+Proof.
+  intros H. destruct (check_scalar_variable az false d v) as [c|] eqn:E; [|discriminate].
+  apply wrap_ok in E. apply (core_accepts_scalar_like az d v). now rewrite E.
+Qed.
+
+Lemma core_scalar_like_eq (az : bool) (d : dt) (v : value) (s : sc) : scalar_like v s ->
+  csv_core az false d v =
+  match cast d s with
+  | Ok s' => if zero_test az s' then Raise VErr else Ok (CScalar s')
+  | Raise e => Raise e
+  end.
+Proof.
+  unfold csv_core, check_scalar, asarray.
+  intros [->|[->| ->]]; cbn [cast_list]; destruct (cast d s); try reflexivity; cbn; now rewrite orb_false_r.
+Qed.
+
+Lemma pre_scalar_like_eq (az : bool) (v : value) (s : sc) : scalar_like v s ->
+  csv_pre az false v =
+  match cast DtFloat s with
+  | Ok f => if zero_test az f then Some VErr else if is_inf f then Some VErr else None
+  | Raise e => Some e
+  end.
+Proof.
+  unfold csv_pre, check_scalar, asarray.
+  intros [->|[->| ->]]; cbn [cast_list]; destruct (cast DtFloat s); try reflexivity; cbn; now rewrite !orb_false_r.
+Qed.
+
+(* lam (1-D): accepted iff None (np.asarray(None, float) is nan!), or scalar-like, representable, and not <= 0 *)
+Theorem check_lam_iff (v : value) :
+  run_guard (GCSV false false DtFloat) v = None <->
+  v = NoneV \/ exists s, scalar_like v s /\ cast DtFloat s <> Raise OErr /\ le_sc s (zc 0) = false.
+Proof.
+  cbn [run_guard]. change (check_scalar_variable false false DtFloat v) with (csv_core false false DtFloat v). split.
+  - intros H. destruct (core_accepts_scalar_like _ _ _ H) as [->|[s Hs]]; [now left|]. right. exists s.
+    split; [assumption|]. rewrite (core_scalar_like_eq _ _ _ _ Hs) in H. unfold zero_test in H.
+    destruct (cast DtFloat s) as [s'|] eqn:F; [|discriminate]. split; [discriminate|].
+    rewrite <- (cast_float_le s s' _ F). now destruct (le_sc s' (zc 0)).
+  - intros [->|[s [Hs [Hc Hz]]]]; [reflexivity|]. rewrite (core_scalar_like_eq _ _ _ _ Hs). unfold zero_test.
+    destruct (cast DtFloat s) as [s'|e] eqn:F.
+    + rewrite (cast_float_le s s' _ F), Hz. reflexivity.
+    + apply cast_float_raise in F. subst e. congruence.
+Qed.
+
+(* facts about a scalar whose integer cast exists *)
+Lemma cast_both (s : sc) (z : Z) : cast DtInt s = Ok (Int z) ->
+  exists f, cast DtFloat s = Ok f /\ is_inf f = false /\
+            (forall x, le_sc f x = le_sc s x) /\ (forall x, lt_sc f x = lt_sc s x).
+Proof.
+  destruct s as [z0|q| | | |b]; cbn [cast]; try discriminate.
+  - destruct (in_i64 z0) eqn:R; [|discriminate]. intros _. rewrite (in_i64_float z0 R).
+    exists (Frac (inject_Z z0)). repeat split.
+  - intros _. exists (Frac q). repeat split.
+  - intros _. exists (Frac (inject_Z (b2z b))). repeat split.
+Qed.
+
+Lemma int_cast_shape (s s' : sc) : cast DtInt s = Ok s' -> exists z, s' = Int z.
+Proof. destruct s; cbn [cast]; try discriminate; try (destruct (in_i64 _); [|discriminate]); intros H; inversion H; eauto. Qed.
+
+Lemma floor_nonneg (q : Q) : Qle_bool 0 q = true -> 0 <= Qfloor q.
+Proof.
+  intros H. apply Qle_bool_iff in H. change 0 with (Qfloor (inject_Z 0)). apply Qfloor_resp_le. exact H.
+Qed.
+
+Lemma cast_nonneg (s : sc) (z : Z) : cast DtInt s = Ok (Int z) -> lt_sc s (zc 0) = false -> 0 <= z.
+Proof.
+  destruct s as [z0|q| | | |b]; cbn [cast]; try discriminate.
+  - destruct (in_i64 z0); [|discriminate]. intros H L. inversion H; subst. unfold zc in L. rewrite lt_sc_int in L. lia.
+  - destruct (in_i64 (trunc q)); [|discriminate]. intros H L. inversion H; subst.
+    unfold lt_sc, ext_ltb, zc in L. cbn in L. unfold trunc.
+    destruct (Qle_bool 0 q) eqn:E; [now apply floor_nonneg|].
+    change (inject_Z 0) with 0%Q in L. rewrite E in L. discriminate.
+  - intros H _. inversion H. destruct b; cbn; lia.
+Qed.
+
+Lemma le_sc_trans_int (a b : Z) (s : sc) : le_sc (Int a) s = true -> le_sc s (Int b) = true -> a <= b.
+Proof.
+  unfold le_sc. destruct s as [z|q| | | |c]; cbn; try discriminate; rewrite ?qle_inj; try lia.
+  intros H1 H2. apply Qle_bool_iff in H1, H2. assert (inject_Z a <= inject_Z b)%Q by (eapply Qle_trans; eauto).
+  rewrite <- Zle_Qle in H. exact H.
+Qed.
+
+(* half_window (1-D): accepted iff scalar-like, castable to an integer z >= 1 that equals the input *)
+Theorem half_window_1d_iff (v : value) :
+  run_guard (GHalfWindow false false) v = None <->
+  exists s z, scalar_like v s /\ cast DtInt s = Ok (Int z) /\ 1 <= z /\ eq_sc (Int z) s = true.
+Proof.
+  cbn [run_guard]. unfold check_half_window. split.
+  - intros H. destruct (check_scalar_variable false false DtInt v) as [c|] eqn:E; [|discriminate].
+    apply wrap_ok in E.
+    assert (E' : of_res (csv_core false false DtInt v) = None) by now rewrite E.
+    destruct (core_accepts_scalar_like _ _ _ E') as [->|[s Hs]]; [discriminate|].
+    rewrite (core_scalar_like_eq _ _ _ _ Hs) in E. unfold zero_test in E.
+    destruct (cast DtInt s) as [s'|] eqn:F; [|discriminate].
+    destruct (int_cast_shape s s' F) as [z ->].
+    destruct (le_sc (Int z) (zc 0)) eqn:L; [discriminate|]. inversion E; subst c.
+    exists s, z. split; [assumption|]. split; [exact F|]. split.
+    + unfold zc in L. rewrite le_sc_int in L. lia.
+    + assert (N : ne_orig (CScalar (Int z)) v = negb (eq_sc (Int z) s)).
+      { destruct Hs as [->|[->| ->]]; unfold ne_orig; cbn; apply orb_false_r. }
+      rewrite N in H. now destruct (eq_sc (Int z) s).
+  - intros [s [z [Hs [Hc [Hz He]]]]].
+    assert (Lz : le_sc s (zc 0) = false).
+    { destruct (le_sc s (zc 0)) eqn:L; [|reflexivity]. exfalso. unfold eq_sc in He. apply andb_prop in He as [H1 _].
+      pose proof (le_sc_trans_int z 0 s H1 L). lia. }
+    destruct (cast_both s z Hc) as [f [Hf [Hi [Hle _]]]].
+    unfold check_scalar_variable. cbn [is_int_dt]. rewrite (pre_scalar_like_eq _ _ _ Hs), Hf.
+    unfold zero_test at 1. rewrite Hle, Lz, Hi.
+    rewrite (core_scalar_like_eq _ _ _ _ Hs), Hc. unfold zero_test, zc.
+    rewrite le_sc_int. replace (z <=? 0) with false by lia.
+    assert (N : ne_orig (CScalar (Int z)) v = negb (eq_sc (Int z) s)).
+    { destruct Hs as [->|[->| ->]]; unfold ne_orig; cbn; apply orb_false_r. }
+    rewrite N, He. reflexivity.
+Qed.
+
+(* half_window, 1-D and 2-D: whatever is accepted is inside the documented domain *)
+Theorem half_window_accepts_only_valid (td : bool) (v : value) :
+  regular v = true -> run_guard (GHalfWindow false td) v = None -> must_reject DHw td v = false.
+Proof.
+  intros R H. destruct (must_reject DHw td v) eqn:M; [|reflexivity].
+  exfalso. now apply (cov_hw td v R M).
+Qed.
+
+(* poly_order (1-D, allow_zero, dtype=int): accepted iff scalar-like, castable, and not negative
+   (negative fractions are no longer truncated to 0) *)
+Theorem csv_int_allow_zero_iff (v : value) :
+  run_guard (GCSV true false DtInt) v = None <->
+  exists s z, scalar_like v s /\ cast DtInt s = Ok (Int z) /\ lt_sc s (zc 0) = false.
+Proof.
+  cbn [run_guard]. split.
+  - intros H. destruct (csv_accepts_scalar_like _ _ _ H) as [->|[s Hs]]; [discriminate|].
+    unfold check_scalar_variable in H. cbn [is_int_dt] in H. rewrite (pre_scalar_like_eq _ _ _ Hs) in H.
+    destruct (cast DtFloat s) as [f|] eqn:Ff; [|discriminate].
+    unfold zero_test at 1 in H. rewrite (cast_float_lt s f _ Ff) in H.
+    destruct (lt_sc s (zc 0)) eqn:L; [discriminate|]. destruct (is_inf f); [discriminate|].
+    rewrite (core_scalar_like_eq _ _ _ _ Hs) in H.
+    destruct (cast DtInt s) as [s'|] eqn:F; [|discriminate].
+    destruct (int_cast_shape s s' F) as [z ->]. exists s, z. now repeat split.
+  - intros [s [z [Hs [Hc Hz]]]]. destruct (cast_both s z Hc) as [f [Hf [Hi [_ Hlt]]]].
+    unfold check_scalar_variable. cbn [is_int_dt]. rewrite (pre_scalar_like_eq _ _ _ Hs), Hf.
+    unfold zero_test at 1. rewrite Hlt, Hz, Hi.
+    rewrite (core_scalar_like_eq _ _ _ _ Hs), Hc. unfold zero_test, zc.
+    rewrite lt_sc_int. pose proof (cast_nonneg s z Hc Hz). replace (z <? 0) with false by lia. reflexivity.
+Qed.
+
+(* integer parameters: an infinity is now a ValueError, for both settings of allow_zero and two_d *)
+Theorem int_param_inf_is_value_error (az td : bool) (s : sc) :
+  is_inf s = true -> run_guard (GCSV az td DtInt) (Sc s) = Some VErr.
+Proof. destruct s; try discriminate; destruct az, td; reflexivity. Qed.
+
+(* banded_solver setter: accepted iff a non-bool scalar numerically equal to 1, 2, 3 or 4 *)
+Theorem banded_solver_iff (v : value) (s : sc) :
+  banded_solver_set v = Ok s <->
+  v = Sc s /\ (forall b, s <> Bl b) /\ existsb (fun k => eq_sc s (Int k)) [1; 2; 3; 4] = true.
+Proof.
+  split.
+  - destruct v as [x| | | |]; cbn [banded_solver_set]; try discriminate.
+    destruct x; try discriminate;
+      match goal with |- (if ?b then _ else _) = _ -> _ => destruct b eqn:E end; try discriminate;
+      intros H; inversion H; subst; (split; [reflexivity|]); (split; [discriminate|exact E]).
+  - intros [-> [Hb He]]. cbn [banded_solver_set]. destruct s as [z|q| | | |b]; try (rewrite He; reflexivity). exfalso. now apply (Hb b).
+Qed.
+
+(* _check_sized_array: a returned shape has the expected length and the data was finite when checked *)
+Theorem sized_array_ok (cf fin e1 : bool) (shape s : list Z) (len : Z) :
+  check_sized_array cf fin e1 shape len = Ok s -> (cf = true -> fin = true) /\ last s 0 = len.
+Proof.
+  unfold check_sized_array. destruct cf, fin; cbn [andb negb]; try discriminate;
+    destruct (check_array_shape e1 false false shape); try discriminate;
+    destruct (last a 0 =? len) eqn:E; try discriminate; intros H; inversion H; subst;
+    (split; [congruence|now apply Z.eqb_eq]).
+Qed.
+
+(* ---------------------------------------------------------------- remaining documented holes (inside the domains) *)
+Theorem lam_nan_accepted : run_guard (GCSV false false DtFloat) (Sc NaN) = None.
+Proof. reflexivity. Qed.
+
+(* a finite value of 2^63 or more is inside the documented domain but its integer cast overflows *)
+Theorem huge_finite_overflow : run_guard (GCSV true false DtInt) (Sc (Int (2 ^ 63))) = Some OErr.
+Proof. vm_compute. reflexivity. Qed.
+
+(* the former witnesses are now rejected *)
+Theorem former_witnesses_rejected :
+  run_guard (GHalfWindow false true) (Sc (Frac (5 # 2))) = Some TErr /\
+  run_guard (GCSV true false DtInt) (Sc NegInf) = Some VErr /\
+  run_guard (GCSV true false DtInt) (Sc (Frac (-1 # 2))) = Some VErr.
+Proof. vm_compute. repeat split. Qed.
+
+(* non-vacuity of the routing theorem's hypotheses *)
+Example regular_bad_value : regular (Sc (Int 0)) = true /\ must_reject DPos false (Sc (Int 0)) = true.
+Proof. vm_compute. split; reflexivity. Qed.
+Example regular_bad_inf : regular (Sc NegInf) = true /\ must_reject (DGe 0) false (Sc NegInf) = true.
+Proof. vm_compute. split; reflexivity. Qed.
